@@ -113,3 +113,206 @@ pub proof fn lemma_finish(dm0: &DepManager, dm1: &DepManager, rep: Map<AbsPath, 
         }
     }
 }
+
+// ---- C03: every file whose first pass was started is, at any time, (a) being processed, (b) waiting for a dependency,
+// or (c) completed; so when nothing is pending and nobody waits, every one of them has completed
+pub open spec fn file_state_ok(dm: &DepManager, pend: Multiset<TaskV>, f: AbsPath) -> bool {
+    ||| pend.count(TaskV::Pre(f, true)) > 0
+    ||| pend.count(TaskV::Pre(f, false)) > 0
+    ||| dm.waiting(f)
+    ||| dm.fin().contains(f)
+}
+
+/// ... for every started file except those in `ex` (files whose result is being handled right now)
+pub open spec fn tracked_except(dm: &DepManager, pend: Multiset<TaskV>, files: Set<AbsPath>, ex: Set<AbsPath>) -> bool {
+    forall|f: AbsPath| #[trigger] files.contains(f) && !ex.contains(f) ==> file_state_ok(dm, pend, f)
+}
+
+pub open spec fn task_files(t: TaskV) -> Set<AbsPath> {
+    match t {
+        TaskV::Scan(_) => Set::<AbsPath>::empty(),
+        TaskV::Pre(f, _) => Set::<AbsPath>::empty().insert(f),
+    }
+}
+
+/// execute_file's effect (its two postcondition cases) keeps the tracking
+pub proof fn lemma_spawned(dm: &DepManager, p0: Multiset<TaskV>, p1: Multiset<TaskV>, f0: Set<AbsPath>, f1: Set<AbsPath>,
+    ex: Set<AbsPath>, x: AbsPath, first: bool)
+    requires
+        tracked_except(dm, p0, f0, ex),
+        (first && f0.contains(x)) ==> (p1 == p0 && f1 == f0 && !ex.contains(x)),
+        !(first && f0.contains(x)) ==> (p1 == p0.insert(TaskV::Pre(x, first)) && f1 == (if first { f0.insert(x) } else { f0 })),
+    ensures
+        tracked_except(dm, p1, f1, ex.remove(x)),
+        first ==> f1.contains(x),
+        f0.subset_of(f1),
+{
+    assert forall|f: AbsPath| #[trigger] f1.contains(f) && !ex.remove(x).contains(f) implies file_state_ok(dm, p1, f) by {
+        if f == x {
+            if first && f0.contains(x) {
+                assert(f0.contains(f) && !ex.contains(f));
+            } else {
+                assert(p1.count(TaskV::Pre(x, first)) > 0);
+            }
+        } else {
+            assert(f0.contains(f) && !ex.contains(f));
+            assert(file_state_ok(dm, p0, f));
+            if !(first && f0.contains(x)) {
+                assert(p1.count(TaskV::Pre(f, true)) >= p0.count(TaskV::Pre(f, true)));
+                assert(p1.count(TaskV::Pre(f, false)) >= p0.count(TaskV::Pre(f, false)));
+            }
+        }
+    }
+}
+
+/// a scan task handed to the pool does not touch any file's state
+pub proof fn lemma_spawned_scan(dm: &DepManager, p0: Multiset<TaskV>, files: Set<AbsPath>, ex: Set<AbsPath>, d: AbsPath)
+    requires
+        tracked_except(dm, p0, files, ex),
+    ensures
+        tracked_except(dm, p0.insert(TaskV::Scan(d)), files, ex),
+{
+    let p1 = p0.insert(TaskV::Scan(d));
+    assert forall|f: AbsPath| #[trigger] files.contains(f) && !ex.contains(f) implies file_state_ok(dm, p1, f) by {
+        assert(file_state_ok(dm, p0, f));
+        assert(p1.count(TaskV::Pre(f, true)) >= p0.count(TaskV::Pre(f, true)));
+        assert(p1.count(TaskV::Pre(f, false)) >= p0.count(TaskV::Pre(f, false)));
+    }
+}
+
+/// receiving the result of task t only unsettles the file of t
+pub proof fn lemma_received(dm: &DepManager, p0: Multiset<TaskV>, files: Set<AbsPath>, t: TaskV)
+    requires
+        tracked_except(dm, p0, files, Set::<AbsPath>::empty()),
+        p0.count(t) > 0,
+    ensures
+        tracked_except(dm, p0.remove(t), files, task_files(t)),
+{
+    let p1 = p0.remove(t);
+    assert forall|f: AbsPath| #[trigger] files.contains(f) && !task_files(t).contains(f) implies file_state_ok(dm, p1, f) by {
+        assert(file_state_ok(dm, p0, f));
+        assert(t != TaskV::Pre(f, true) && t != TaskV::Pre(f, false));
+        assert(p1.count(TaskV::Pre(f, true)) == p0.count(TaskV::Pre(f, true)));
+        assert(p1.count(TaskV::Pre(f, false)) == p0.count(TaskV::Pre(f, false)));
+    }
+}
+
+/// a first pass reported dependencies (add_dependency's postcondition): the file now waits, unless all are done
+pub proof fn lemma_report_tracked(dm0: &DepManager, dm1: &DepManager, p: Multiset<TaskV>, files: Set<AbsPath>, x: AbsPath, deps: Seq<AbsPath>, r: bool)
+    requires
+        tracked_except(dm0, p, files, Set::<AbsPath>::empty().insert(x)),
+        dm1.fin() == dm0.fin(),
+        forall|a: AbsPath, b: AbsPath| dm1.edge(a, b) <==> (dm0.edge(a, b) || (a == x && deps.contains(b) && !dm0.fin().contains(b))),
+        r <==> (exists|i: int| 0 <= i < deps.len() && !dm0.fin().contains(#[trigger] deps[i])),
+    ensures
+        r ==> tracked_except(dm1, p, files, Set::<AbsPath>::empty()),
+        !r ==> tracked_except(dm1, p, files, Set::<AbsPath>::empty().insert(x)),
+{
+    assert forall|f: AbsPath| #[trigger] files.contains(f) && (f != x || r) implies file_state_ok(dm1, p, f) by {
+        if f == x {
+            let i = choose|i: int| 0 <= i < deps.len() && !dm0.fin().contains(#[trigger] deps[i]);
+            assert(deps.contains(deps[i]));
+            assert(dm1.edge(x, deps[i]));
+        } else {
+            assert(file_state_ok(dm0, p, f));
+            if dm0.waiting(f) {
+                let b = choose|b: AbsPath| dm0.edge(f, b);
+                assert(dm1.edge(f, b));
+            }
+        }
+    }
+}
+
+/// a final pass completed (notify_finish's postcondition): the file is done; whoever only waited for it is released
+pub proof fn lemma_finish_tracked(dm0: &DepManager, dm1: &DepManager, p: Multiset<TaskV>, files: Set<AbsPath>, f: AbsPath, released: Set<AbsPath>)
+    requires
+        tracked_except(dm0, p, files, Set::<AbsPath>::empty().insert(f)),
+        dm1.fin() == dm0.fin().insert(f),
+        forall|a: AbsPath, b: AbsPath| dm1.edge(a, b) <==> (dm0.edge(a, b) && b != f),
+        forall|a: AbsPath| released.contains(a) <==> (dm0.edge(a, f) && dm0.all_deps_are(a, f)),
+    ensures
+        tracked_except(dm1, p, files, released),
+{
+    assert forall|g: AbsPath| #[trigger] files.contains(g) && !released.contains(g) implies file_state_ok(dm1, p, g) by {
+        if g != f {
+            assert(file_state_ok(dm0, p, g));
+            if dm0.waiting(g) && !dm0.fin().contains(g) {
+                let b = choose|b: AbsPath| dm0.edge(g, b);
+                if b != f {
+                    assert(dm1.edge(g, b));
+                } else {
+                    // g waits for f but was not released: it waits for something else too
+                    assert(!dm0.all_deps_are(g, f));
+                    let b2 = choose|b2: AbsPath| dm0.edge(g, b2) && b2 != f;
+                    assert(dm1.edge(g, b2));
+                }
+            }
+        }
+    }
+}
+
+/// nothing pending, nobody waiting: every started file has completed
+pub proof fn lemma_all_completed(dm: &DepManager, p: Multiset<TaskV>, files: Set<AbsPath>)
+    requires
+        tracked_except(dm, p, files, Set::<AbsPath>::empty()),
+        p.len() == 0,
+        dm.no_edges(),
+    ensures
+        forall|f: AbsPath| files.contains(f) ==> dm.fin().contains(f),
+{
+    assert forall|f: AbsPath| files.contains(f) implies dm.fin().contains(f) by {
+        assert(file_state_ok(dm, p, f));
+        assert(p.count(TaskV::Pre(f, true)) == 0 && p.count(TaskV::Pre(f, false)) == 0) by {
+            assert(p =~= Multiset::<TaskV>::empty());
+        }
+        if dm.waiting(f) {
+            let b = choose|b: AbsPath| dm.edge(f, b);
+            assert(false);
+        }
+    }
+}
+
+/// nothing pending: every started file has completed or still waits for a dependency (C05: when a cycle is reported,
+/// the files that wait for nothing - in particular those that cannot reach the cycle's members through unfinished
+/// dependencies - have been completed)
+pub proof fn lemma_idle_state(dm: &DepManager, p: Multiset<TaskV>, files: Set<AbsPath>)
+    requires
+        tracked_except(dm, p, files, Set::<AbsPath>::empty()),
+        p.len() == 0,
+    ensures
+        forall|f: AbsPath| files.contains(f) ==> dm.fin().contains(f) || dm.waiting(f),
+{
+    assert forall|f: AbsPath| files.contains(f) implies dm.fin().contains(f) || dm.waiting(f) by {
+        assert(file_state_ok(dm, p, f));
+        assert(p =~= Multiset::<TaskV>::empty());
+    }
+}
+
+/// the files of a duplicate-free list that are still to be handled
+pub proof fn lemma_skip_set(vs: Seq<AbsPath>, i: int)
+    requires
+        vs.no_duplicates(),
+        0 <= i < vs.len(),
+    ensures
+        vs.skip(i).to_set().remove(vs[i]) =~= vs.skip(i + 1).to_set(),
+{
+    let a = vs.skip(i);
+    let b = vs.skip(i + 1);
+    assert forall|x: AbsPath| a.to_set().remove(vs[i]).contains(x) <==> b.to_set().contains(x) by {
+        if a.to_set().remove(vs[i]).contains(x) {
+            assert(a.contains(x));
+            let j = choose|j: int| 0 <= j < a.len() && a[j] == x;
+            assert(j != 0);
+            assert(b[j - 1] == x);
+            assert(b.contains(x));
+        }
+        if b.to_set().contains(x) {
+            assert(b.contains(x));
+            let j = choose|j: int| 0 <= j < b.len() && b[j] == x;
+            assert(a[j + 1] == x);
+            assert(a.contains(x));
+            assert(vs[i + 1 + j] == x);
+            assert(x != vs[i]);
+        }
+    }
+}
